@@ -4,6 +4,8 @@ Line-protocol driver for the whole-template parser model (Model/TemplateParser.l
                    Model/Tok.lean, from `tera::verif_hooks::tokens_wire`)
                    → "ok <template wire>" (AstWire `T ostr(parent) nodes components`) | "err" |
                      "panic <site>" | "fuel" | "bad-args"
+  shape <tok>…     → "1" when the stream has the shape the totality theorem assumes of lexer output
+                     (`TParser.shaped .tpl`), else "0"
 -/
 import TeraModel.Model.AstWire
 import TeraModel.Model.Tok
@@ -20,6 +22,10 @@ def handle (line : String) : String :=
       | .err => "err"
       | .panic m => "panic " ++ m
       | .fuel => "fuel"
+    | none => "bad-args"
+  | "shape" :: rest =>
+    match Tok.ofWireList rest with
+    | some toks => if TParser.shaped .tpl toks then "1" else "0"
     | none => "bad-args"
   | _ => "bad-request"
 
